@@ -120,6 +120,9 @@ inductive Ex where
   | getMaintainer (g c hd tg dp : Ex)   -- `g.node.get_maintainer(graph=c, handler=hd, target=tg, dispatcher=dp)`
   | evOld (e : Ex)                      -- `e.old` of a trait change event
   | evNew (e : Ex)                      -- `e.new`
+  | evRemoved (e : Ex)                  -- `e.removed` of a list / dict / set change event
+  | evAdded (e : Ex)                    -- `e.added`
+  | valuesOf (e : Ex)                   -- `e.values()`
   deriving Repr
 
 inductive St where
@@ -197,6 +200,9 @@ inductive PV where
   | inst (fr : Frame)
   | val (v : Val)                          -- a trait value (what a change event carries)
   | event (old new : Val)                  -- a TraitChangeEvent
+  | cevent (kind : MKind) (removed added : List Id)   -- a List / Dict / SetChangeEvent (dict: the VALUES of removed / added)
+  | ids (l : List Id)                      -- a list or set of objects
+  | dvals (l : List Id)                    -- a dict, seen through its values
 
 /-- a trait value as the `object` of a walk: a heap object, or a value outside the heap -/
 def valW : Val → W
@@ -293,6 +299,15 @@ def eval (self : Option Frame) (vars : Vars) (nlogs : Nat) : Ex → Option PV
     | _ => none
   | .evNew e => match eval self vars nlogs e with
     | some (.event _ new) => some (.val new)
+    | _ => none
+  | .evRemoved e => match eval self vars nlogs e with
+    | some (.cevent kind r _) => some (if kind = .dict then .dvals r else .ids r)
+    | _ => none
+  | .evAdded e => match eval self vars nlogs e with
+    | some (.cevent kind _ a) => some (if kind = .dict then .dvals a else .ids a)
+    | _ => none
+  | .valuesOf e => match eval self vars nlogs e with
+    | some (.dvals l) => some (.ids l)
     | _ => none
 
 def evalAll (self : Option Frame) (vars : Vars) (nlogs : Nat) : List Ex → Option (List PV)
@@ -427,6 +442,7 @@ def exec (h : Heap) (P : Prog) (call : Callee → G → G × Flow) (self : Optio
     match eval self st.vars st.logs.length e with
     | some (.graphs gs) => forLoop i (fun s => exec h P call self body s) (gs.map .graph) st
     | some (.meths ms) => forLoop i (fun s => exec h P call self body s) (ms.map .meth) st
+    | some (.ids l) => forLoop i (fun s => exec h P call self body s) (l.map (fun y => .obj (some y))) st
     | _ => (st, .stuck)
   | .callVar i, st =>
     match st.vars i, self with
